@@ -92,8 +92,8 @@ func cmdFn(args []string) {
 				continue
 			}
 			if o.Kind == "pre-sat" {
-				if o.Status != "failed" {
-					fmt.Printf("   VACUOUS? %s: %s %s\n", o.Name, o.Status, o.Output)
+				if o.Status == "proved" {
+					fmt.Printf("   VACUOUS precondition %s\n", o.Name)
 					bad++
 				}
 				continue
@@ -194,12 +194,13 @@ func (p *Program) runJobs(fns []*ssa.Function, cfg SolverCfg) []*Job {
 			pfs = append(pfs, q)
 		}
 	}
+	psem := make(chan struct{}, 4) // each portfolio entry starts four solver processes
 	for _, q := range pfs {
 		wg.Add(1)
 		go func(q pf) {
 			defer wg.Done()
-			sem <- struct{}{}
-			defer func() { <-sem }()
+			psem <- struct{}{}
+			defer func() { <-psem }()
 			portfolioScript(q.j, q.o, q.script, cfg)
 			if q.o.Status == "unknown" && len(q.split) > 0 {
 				// all cases unsat => proved; any case sat => failed with that model
